@@ -42,10 +42,12 @@ def main():
         "version": 1,
         "setup_cmd": "./setup.sh",
         "hooks": {
-            "guard": "ironplc_verif",
-            "enable": "none needed: every observation point is public API of the crates or the ironplcc binary; RUSTFLAGS=--cfg ironplc_verif would enable hooks if any existed",
+            "guard": "verif (cargo feature of ironplc-analyzer, off by default)",
+            "enable": "harness/Cargo.toml depends on ironplc-analyzer with features = [\"verif\"]; the feature only adds the module "
+                      "analyzer/src/verif_hooks.rs (public wrappers around resolve_types, semantic, the single rules and transformations); "
+                      "the ironplcc binary the checks drive is built without it",
             "baseline_off_cmd": "cd /repo/compiler && cargo test --workspace --no-fail-fast --offline",
-            "source_commits": [],
+            "source_commits": ["4de60e0"],
             "add_only": True,
         },
         "engines": [{
@@ -58,7 +60,7 @@ def main():
         }],
         "checks": checks,
         "not_applicable": na,
-        "notes": "fix: commits in /repo (unguarded defect repairs) are listed in known_findings.json under 'fixed'. No hooks.",
+        "notes": "fix: commits in /repo (unguarded defect repairs) are listed in known_findings.json under 'fixed'. One hook commit (cargo feature 'verif' of ironplc-analyzer).",
     }
     with open(os.path.join(VERIF, "MANIFEST.json"), "w") as f:
         json.dump(man, f, indent=1)
